@@ -165,11 +165,29 @@ fn classify_range(m: &Model, s: usize, l: usize, cx: &mut Cx) {
 
 fn run(t: &mut Tape, cx: &mut Cx) -> Result<(), String> {
     let (byte_size, page) = gen_dims(t);
-    note!(cx, "new(byte_size {}, page {})", byte_size, page);
-    let mut bms: Vec<(Arc<AtomicBitmap>, Model)> = vec![(
-        Arc::new(AtomicBitmap::new(byte_size, NonZeroUsize::new(page).unwrap())),
-        Model::new(byte_size, page),
-    )];
+    // other ways to obtain a bitmap: with_len (the system page size), default (empty, 4096)
+    let (byte_size, page, first) = match t.below(8) {
+        0 => {
+            use vm_memory::bitmap::NewBitmap;
+            // SAFETY: plain sysconf.
+            let ps = unsafe { libc::sysconf(libc::_SC_PAGE_SIZE) } as usize;
+            let bs = byte_size.saturating_mul(if t.flag() { ps / 8 } else { 1 }).min(1 << 26);
+            note!(cx, "with_len({})", bs);
+            cx.label("with_len");
+            (bs, ps, AtomicBitmap::with_len(bs))
+        }
+        1 if byte_size % 5 == 0 => {
+            note!(cx, "default()");
+            cx.label("default_bitmap");
+            (0, 4096, AtomicBitmap::default())
+        }
+        _ => {
+            note!(cx, "new(byte_size {}, page {})", byte_size, page);
+            (byte_size, page, AtomicBitmap::new(byte_size, NonZeroUsize::new(page).unwrap()))
+        }
+    };
+    let mut bms: Vec<(Arc<AtomicBitmap>, Model)> = vec![(Arc::new(first), Model::new(byte_size, page))];
+    ensure!(bms[0].0.len() == bms[0].1.pages && bms[0].0.byte_size() == byte_size, "fresh bitmap: len() = {}, byte_size() = {}; expected {} pages of {} for {} bytes", bms[0].0.len(), bms[0].0.byte_size(), bms[0].1.pages, page, byte_size);
     compare(&bms[0].0, &bms[0].1, "fresh bitmap")?;
     if byte_size % page != 0 {
         cx.label("size_not_page_multiple");
